@@ -513,3 +513,42 @@ class MemDatagramListener(AsyncDatagramListener):
     @property
     def extra_attributes(self):
         return {}
+
+
+# --------------------------------------------------------------------------------------------------
+# backend whose listeners/connections are in memory (for the high-level servers and clients)
+
+
+class MemServerBackend(AsyncIOBackend):
+    """AsyncIOBackend with create_tcp_listeners()/create_tcp_connection() answered from memory.
+    Listener creation suspends `listener_delay` loop iterations (so lifecycle calls can land inside that window)."""
+
+    def __init__(self, listener_delay: int = 1, n_listeners: int = 1):
+        super().__init__()
+        self.listener_delay = listener_delay
+        self.n_listeners = n_listeners
+        self.listeners = []
+        self.listener_error = None
+
+    async def create_tcp_listeners(self, host, port, backlog=100, *, reuse_port=False):
+        for _ in range(self.listener_delay):
+            await self.coro_yield()
+        if self.listener_error is not None:
+            raise self.listener_error
+        made = [MemListener(self) for _ in range(self.n_listeners)]
+        self.listeners.extend(made)
+        return made
+
+
+def _listener_extra(self):
+    from easynetwork.lowlevel.socket import INETSocketAttribute
+
+    sock = _FakeTransportSocket()
+    return {
+        INETSocketAttribute.socket: lambda: sock,
+        INETSocketAttribute.family: lambda: 2,
+        INETSocketAttribute.sockname: lambda: ("127.0.0.1", 1),
+    }
+
+
+MemListener.extra_attributes = property(_listener_extra)
